@@ -9,6 +9,7 @@ import NbioVerif.Model.Alloc
     R h size get=.. grow=.. put=<tag>
     F h put=<tag>
     P ...                      (concurrent supporting program: not modelled, answers "ok")
+    K lo hi                    fingerprint of the size-class table classOf lo..hi
 -/
 open Alloc
 
@@ -70,6 +71,10 @@ partial def loop (h : IO.FS.Stream) (g : Cfg) (s : St) (poisoned : Bool) : IO Un
     loop h g s poisoned
   | "F" :: hn :: rest =>
     let s ← apply g s (.free hn.toNat! (natField rest "put")) hn.toNat! true
+    loop h g s poisoned
+  | "K" :: lo :: hi :: _ =>
+    let tab := (List.range (hi.toNat! + 1 - lo.toNat!)).map fun i => UInt8.ofNat (classOf (lo.toNat! + i))
+    IO.println s!"cls={Drv.fnv tab}"
     loop h g s poisoned
   | "P" :: _ => IO.println "ok"; loop h g s true
   | _ => IO.println "bad-op"; loop h g s poisoned
